@@ -32,6 +32,8 @@ generator handlers only:
 evspec: {'name': str, 'prio': number (default 0), 'flags': {'success','failure','complete','notify': bool},
          'cancel': bool (cancel right after firing), 'success_channels'/'complete_channels': [...],
          'channels': [...] (fire to these channels; handlers may carry 'channel'),
+         'mk': None | 'attr' | 'renamed' (how the object gets its name: Event.create(name) / a class of another name with a name attribute /
+               renamed after construction; the program may give a default for all its events as prog['mk']),
          'share': key (call/wait/waitname only: the first executor fires the event, later ones - while it has not been dispatched - only wait
                   for that same instance)}
 """
@@ -60,6 +62,7 @@ class World:
         self.prog = prog
         self.log = []
         self.events = {}      # uid -> info
+        self._named = {}      # event name -> class with a ``name`` attribute (evspec / program option mk='attr')
         self.shared = {}      # share key -> (event object, uid): events several handlers wait for (evspec 'share')
         self.objs = {}        # uid -> event object
         self.nuid = 0
@@ -148,7 +151,19 @@ class World:
 
     # -- events ----------------------------------------------------------------------------------------
     def mk_event(self, spec, parent=None, by=None):
-        e = self.Event.create(spec['name'])
+        # how the event object comes by its name: a class of that name (Event.create), a class of ANOTHER name with a ``name`` attribute,
+        # or an instance renamed after construction (what circuits.web.errors.httperror does)
+        mk = spec.get('mk', self.prog.get('mk'))
+        if mk == 'attr':
+            cls = self._named.get(spec['name'])
+            if cls is None:
+                cls = self._named[spec['name']] = type('Ev%s' % ''.join(ch for ch in spec['name'].title() if ch.isalnum()), (self.Event,), {'name': spec['name']})
+            e = cls()
+        elif mk == 'renamed':
+            e = self.Event.create('orig_' + spec['name'])
+            e.name = spec['name']
+        else:
+            e = self.Event.create(spec['name'])
         self.nuid += 1
         uid = self.nuid
         e._vuid = uid
